@@ -24,7 +24,8 @@ func init() {
 			"R3 the rule state is the conjunction of the stored condition states: abstract run of the conjunction loop with a fresh atom per element, early exit only after a false element, every element examined, no condition store after the loop; " +
 			"R4 the evaluator reports (state, changed) and its callers pair the action lists with the state for the 4 valuations of (active, changed); " +
 			"R5 the set-value point takes type/value/text/target from the action's fields and the sender stamps the rule id on points for foreign nodes; " +
-			"R6 a schedule condition takes the result of the schedule predicate applied to the trigger point's time, only for trigger points. " +
+			"R6 a schedule condition takes the result of the schedule predicate applied to the trigger point's time, only for trigger points; " +
+			"R7 the stored state a point's result is compared with is the current one: no path leads from a store into a condition's state to a comparison with a copy of that condition taken before the store. " +
 			"Not decided: which point of a history is the latest matching one, tick timing, delivery of points by the bus, NaN operands.",
 		Assumptions: []string{
 			"struct tags `point:\"…\"`/`child:\"…\"` are the configuration protocol between UI and rule client (they identify the condition, rule and action fields)",
@@ -44,6 +45,7 @@ func runC13(c *kit.Ctx) {
 	r4 := c.Rule("R4", "action lists are paired with the rule state on change", 3)
 	r5 := c.Rule("R5", "set-value point mapping and origin stamp", 2)
 	r6 := c.Rule("R6", "schedule condition takes the schedule predicate at the trigger time", 2)
+	r7 := c.Rule("R7", "a point's result is compared with the current stored state of its condition", 1)
 	if len(m.evals) == 0 {
 		c.Fatalf("no function stores into the active field of a %s list element", m.cond.Obj().Name())
 	}
@@ -54,6 +56,7 @@ func runC13(c *kit.Ctx) {
 		roles := c13R3(c, m, e, r3, r4)
 		c13R4(c, m, e, roles, r4)
 		c13R6(c, m, e, r6)
+		c13R7(c, m, e, r7)
 	}
 	c13R5(c, m, r5)
 }
@@ -155,6 +158,21 @@ func (r *c13CondRun) run() {
 	if len(evalLoops) == 0 {
 		r.c.Fatalf("%s: no loop over a condition list encloses the condition-state store", f.Name)
 	}
+	unitLoops := map[*ast.RangeStmt]bool{}
+	for rs := range evalLoops {
+		unitLoops[rs] = true
+	}
+	stores := m.condStores(f)
+	ruInspectOwn(f, func(n ast.Node) bool {
+		if rs, ok := n.(*ast.RangeStmt); ok && m.isPointLoop(f, rs) {
+			for _, st := range stores {
+				if rs.Body.Pos() <= st.Pos() && st.End() <= rs.Body.End() {
+					unitLoops[rs] = true
+				}
+			}
+		}
+		return true
+	})
 	var strParams []*types.Var
 	for _, p := range f.Params() {
 		if b, ok := p.Type().Underlying().(*types.Basic); ok && b.Kind() == types.String {
@@ -394,7 +412,11 @@ func (r *c13CondRun) run() {
 		case kit.BrRange:
 			key := fmt.Sprintf("in:%d", br.Range.Pos())
 			switch {
-			case evalLoops[br.Range]:
+			case unitLoops[br.Range]:
+				// The unit of the rule is one (condition, point) pair: the
+				// loops over the conditions and over the points that enclose
+				// the state store are entered once; coming back to the head
+				// of either of them ends the unit, whatever their nesting.
 				if !s.Has(key) {
 					return []kit.S{s.Set(key, "1")}, nil, true
 				}
@@ -405,7 +427,7 @@ func (r *c13CondRun) run() {
 				if s.Get("a:cdiff") == "T" && s.Get("stored") != "T" {
 					r.unstored++
 				}
-				return nil, nil, true // one iteration is the unit of the rule
+				return nil, nil, true
 			case m.isPointLoop(f, br.Range):
 				if !s.Has(key) {
 					return []kit.S{s.Set(key, "1")}, nil, true
